@@ -82,7 +82,7 @@ def rand_elems(rng, dt, n):
     return bytes(out)
 
 
-def slab_spec(rng, dims, lo, partial_ok=True, p=0.6):
+def slab_spec(rng, dims, lo, partial_ok=True, p=0.75):
     """a second way to produce the same array: written in 2..5 slabs along one axis, in random order, through the
     general (memory sub-range) or the partial (contiguous slab, last axis) writers.  None = one whole-array call"""
     axes = [a for a, d in enumerate(dims) if d >= 2]
@@ -813,6 +813,8 @@ def e_array(g, par, p):
     if par.kind in LOADED and g.avoid_complex:
         dts = ["I4", "I8", "R4", "R8", "C1"]          # see the witness complex-array-unreadable
     dt = p.kw.get("dt") or rng.choice(dts)
+    if p.kw.get("nbytes"):                              # a long vector of about that many bytes
+        p.kw["dims"] = [max(2, p.kw["nbytes"] // DT_SIZE[dt])]
     if par.kind == "ReferenceState_t.ReferenceState" and not p.kw.get("dims"):
         p.kw["dims"] = [1]                               # cgi_read_state: "Wrong data dimension in Reference State definition"
     if p.kw.get("sized"):                               # an array that must have the zone's data size
@@ -1045,12 +1047,20 @@ class Planner:
         phys = rng.randint(cell, 3)
         b = Plan("base", e_base, name=self.nm("Base"), cell=cell, phys=phys)
         b.kids += self.ctx_plans("CGNSBase_t")
+        # long vectors of every element size, each behind a descriptor of random length (so that their data start at
+        # every alignment relative to the 4096-byte blocks of the file), written in slabs: every one spans a block boundary
+        sw = Plan("user_data", e_user_data, name=self.nm("Long"))
+        for dt in ["C1", rng.choice(["I4", "R4"]), rng.choice(["I4", "R4"]), rng.choice(["I8", "R8"]), rng.choice(["I8", "R8"]),
+                   rng.choice(["X4", "X8"])]:
+            sw.pre.append(Plan("descriptor", e_descr, name=self.nm("Pad")))
+            sw.pre.append(Plan("array", e_array, name=self.nm("V"), dt=dt, nbytes=rng.randint(4200, 9000), slab_p=0.9))
+        b.kids.append(sw)
         zones = []
         # the zones of a base share a prefix of varying length: the reader sorts them by name (strcmp)
         zprefix = bytes(rng.choice(NAME_CHARS) for _ in range(rng.choice([0, 0, 4, 9, 17, 26])))
         for _ in range(rng.randint(1, 4 if self.big else 3)):
             zt = rng.choice([2, 3])
-            large = rng.random() < 0.35            # arrays of a large zone span several 4096-byte blocks of the file
+            large = rng.random() < 0.5            # arrays of a large zone span several 4096-byte blocks of the file
             if zt == 2:
                 hi = {1: 900, 2: 30, 3: 10}[cell] if large else 4
                 nv = [rng.randint(2, hi) for _ in range(cell)]
